@@ -168,7 +168,7 @@ def build_schema(sk, tmp, built=None, log=None, key=None):
             item = sub
             if sf.get("is_type"):
                 built.counter += 1
-                item = cc.make_type(sub, "I%d" % built.counter)
+                item = cc.make_type(sub, "I%d" % built.counter, key_filename=sf.get("keyfile"))
             built.types[id(sf)] = item
             d = sf.get("default")
             kw = {"required": sf.get("required", False)}
